@@ -60,6 +60,7 @@ func AddressesFromStreamKey(key []byte) (sdk.AccAddress, sdk.AccAddress) {
 
 // FirstAddressFromStreamStoreKey parses the first address only
 func FirstAddressFromStreamStoreKey(key []byte) sdk.AccAddress {
-	addrLen := key[0]
+	// int, not byte arithmetic: 1+addrLen wraps to 0 for a 255-byte address
+	addrLen := int(key[0])
 	return sdk.AccAddress(key[1 : 1+addrLen])
 }
